@@ -223,4 +223,12 @@ def _layeridx(ctx, R):
 
 _layeridx.rule_id = "C04.LAYERIDX"
 
-RULES = [reset, nostale, distribute_rule, sort_rule, target, alllayers, optflow, stubattrs, setiter, nondet, engine, _optsmerge, _layeridx]
+def _stubchain(ctx, R):
+    from .c04 import stubchain_instance, stubchain
+    stubchain_instance(ctx, R)
+    stubchain(ctx, R)
+
+
+_stubchain.rule_id = "C04.STUBCHAIN"
+
+RULES = [reset, nostale, distribute_rule, sort_rule, target, alllayers, optflow, stubattrs, setiter, nondet, engine, _optsmerge, _layeridx, _stubchain]
